@@ -166,6 +166,18 @@ class P:
                 corr.append(" ".join(t))
             corr.append(progs.corrupt(rng, s))
         cases += flow.mk_cases("corrupt", [("LEX:%s PARSE:%s" % (hx(s), hx(s)), None) for s in corr])
+        # tables at the edge of the parser's binding-power arithmetic (a registered operator of precedence 0 or 1, either
+        # associativity: r_bp = -1 is also what a token that is no infix operator reports): correspondence only - the grammar
+        # theorem assumes positive precedences, the model is the same arithmetic and must agree with the code on every sequence
+        edge = []
+        alpha = ["a", "=>", ":", "?", ",", "[", "]", "+", "1", "not"]
+        eseqs = [" ".join(t) for n in range(1, 5) for t in itertools.product(alpha[:7] if n == 4 else alpha, repeat=n)]
+        eseqs += ["a => b : c", "[a => b : c]", "{1: a => 2 : 3}", "f(a => b : c)", "x ? a => b : c", "a => b => c : d", "a => b + c : d", "a => b ! c", "a => b ++ : c"]
+        for regs in (["REGI:%s:0:0:1:0" % hx("=>")], ["REGI:%s:0:0:0:0" % hx("=>")], ["REGI:%s:1:0:1:0" % hx("=>")], ["REGI:%s:1:0:0:0" % hx("=>")],
+                     ["REGI:%s:0:1:1:0" % hx("=>")]):
+            for i in range(0, len(eseqs), 80):
+                edge.append((" ".join(regs + ["PARSE:" + hx(q) for q in eseqs[i:i + 80]]), ("edge", len(regs))))
+        cases += flow.mk_cases("edgetable", edge)
         strs = list(gens.symbol_strings(gens.SYMBOLS, 2))
         cases += flow.mk_cases("alpha", [("LEX:%s PARSE:%s" % (hx(s), hx(s)), None) for s in strs])
         return cases
@@ -190,6 +202,10 @@ class P:
 
     def oracle(self, case, impl):
         outs = impl.split(" ")
+        if case.meta and case.meta[0] == "edge":
+            if any(o.split(":")[0] in ("PANIC", "ABORT", "HANG", "MISSING") for o in outs) or impl in ("ABORT", "HANG", "MISSING"):
+                return "violates", "parser did not return under a table with a precedence-0/1 operator"
+            return "ok", ""
         if len(outs) < 2: return "unknown", impl[:60]
         lexo, parseo = outs[0], outs[1]
         cls = parseo.split(":")[0]
